@@ -129,6 +129,9 @@ def judge(case, impl, model, spec):
         return dict(corr="missing output impl=%r model=%r" % (impl, model))
     if impl == "nobin":
         return dict(skip=True, tags=["skipped-no-fake-binary"])
+    if impl.startswith("hang") or impl.endswith("r:hang"):
+        # decided before the timing margin: no margin makes "never reported" right
+        return dict(spec="the wait was reported neither successful nor failed long after the configured timeout (more than 8 x timeout + 3 s): %s" % impl)
     if margin(model) < 20:
         return dict(skip=True, tags=["skipped-timing-margin"])
     kind = case["line"].split()[0]
